@@ -1,1 +1,71 @@
-// harnesses
+// Proof harnesses inside `builder`.  Property: C16 (builder validation restated = real validation).
+use super::*;
+use crate::{MultipathStrategy, PortDirection, Protocol};
+use crate::types::Port;
+
+fn stub_format(_args: std::fmt::Arguments<'_>) -> String {
+    String::new()
+}
+
+fn any_protocol() -> Protocol {
+    match kani::any::<u8>() % 3 {
+        0 => Protocol::Icmp,
+        1 => Protocol::Udp,
+        _ => Protocol::Tcp,
+    }
+}
+fn any_multipath() -> MultipathStrategy {
+    match kani::any::<u8>() % 3 {
+        0 => MultipathStrategy::Classic,
+        1 => MultipathStrategy::Paris,
+        _ => MultipathStrategy::Dublin,
+    }
+}
+fn any_port_direction() -> PortDirection {
+    match kani::any::<u8>() % 4 {
+        0 => PortDirection::None,
+        1 => PortDirection::FixedSrc(Port(kani::any())),
+        2 => PortDirection::FixedDest(Port(kani::any())),
+        _ => PortDirection::FixedBoth(Port(kani::any()), Port(kani::any())),
+    }
+}
+
+/// The REJECTING half of `Builder::build` for every parameter combination: every configuration that
+/// would reach an `unimplemented!()` arm or underflow once tracing has started (no port direction
+/// for UDP/TCP, FixedBoth for classic UDP or TCP, first_ttl = 0, ttl or initial sequence beyond the
+/// limits) is rejected up front with a configuration error.  (The accepting path constructs the
+/// shared `State` and is not needed here: `c16_accepted_config_*` run the state machine for every
+/// configuration that passes this same predicate.)
+#[kani::proof]
+#[kani::unwind(3)]
+#[kani::stub(alloc::fmt::format, stub_format)]
+fn c16_builder_rejects_unsupported() {
+    let protocol = any_protocol();
+    let strategy = any_multipath();
+    let ports = any_port_direction();
+    let (first_ttl, max_ttl): (u8, u8) = kani::any();
+    let initial: u16 = kani::any();
+    let unsupported = match (protocol, strategy, ports) {
+        (Protocol::Icmp, _, _) => false,
+        (_, _, PortDirection::None) => true,
+        (Protocol::Udp, MultipathStrategy::Classic, PortDirection::FixedBoth(_, _)) => true,
+        (Protocol::Tcp, _, PortDirection::FixedBoth(_, _)) => true,
+        _ => false,
+    } || first_ttl == 0
+        || first_ttl > 254
+        || max_ttl > 254
+        || initial > 64511;
+    kani::assume(unsupported);
+    let b = Builder::new(IpAddr::V4(std::net::Ipv4Addr::new(10, 0, 0, 1)))
+        .protocol(protocol)
+        .multipath_strategy(strategy)
+        .port_direction(ports)
+        .first_ttl(first_ttl)
+        .max_ttl(max_ttl)
+        .initial_sequence(initial);
+    let r = b.build();
+    assert!(matches!(r, Err(Error::BadConfig(_))), "unsupported combination is rejected up front");
+    kani::cover!(first_ttl == 0, "first_ttl 0");
+    kani::cover!(matches!(ports, PortDirection::FixedBoth(_, _)) && matches!(protocol, Protocol::Tcp), "tcp fixed both");
+    std::mem::forget(r);
+}
